@@ -97,4 +97,16 @@ META = {
         "level_text": "Exploration: legacy databases with known contents are produced by the legacy library itself from generated histories (incl. legacy-side deletions, so orphan records and version holes exist); the current library must serve every legacy version with the legacy-reported hash and the model's contents, and a generated continuation (commits on a legacy root, pruning below/at/above the boundary, rollback into the legacy range, reopenings) is checked against the model after every step and through a fresh handle.",
         "level_note": _TB + "Trusted additionally: iavl v0.20.0 + cometbft-db v0.7.0 as legacy oracle. Open finding F29 (two different legacy nodes of one version re-formatted at the same key) is steered around and counted.",
     },
+    "C19": {
+        "engine": "harness_v2",
+        "technique": "three-way differential property testing (v2 vs v1 vs independent reference) over generated histories and option grids",
+        "level_text": "Exploration: the same generated normal-form history is applied to the SQLite-backed v2 tree, to v1 on MemDB and to the reference; every commit hash must agree three ways, and v2's lookups, existence tests, size, height and forward / inclusive / reverse iterators must agree with the versioned-map model before and after each commit, across checkpoint interval, height filter, eviction depth and sharding.",
+        "level_note": _TB + "v2's writer goroutines exit the process on an internal error; the harness' logger prints the VIOLATION line with the current case first.",
+    },
+    "C20": {
+        "engine": "harness_v2",
+        "technique": "round-trip property testing of persistence: close / reopen / LoadVersion of every retained target, continuation, pruning, snapshots, against the reference",
+        "level_text": "Exploration: after closing, every retained version is reloaded (checkpoint read + change-log replay) and compared with the reference hash and the model contents; the history is continued from the reloaded latest version; pruning mid-history must keep the latest version and everything from the last checkpoint not after n loadable; snapshots (table written by SaveSnapshot, and pre-/post-order node streams ingested into a fresh database) must import to the version's hash and contents.",
+        "level_note": _TB + "Open finding F14 (leaves that stay in memory after a replayed load have no value) : value and existence checks are skipped and counted for replayed targets with HeightFilter=0 or a single-leaf tree; hashes, sizes and key order are still checked there. Background pruning is given time, not awaited: only what must survive is asserted.",
+    },
 }
